@@ -835,7 +835,8 @@ class _State:
                 a, d = decode_array_dir(p2)
             except DecodeError as e:
                 raise Viol('decoder.copy', str(e).split(':')[0], str(e))
-            if not D.arr_equal(a, self.model)[0]:
+            # the copy, read by the independent decoder, holds what the Darr API reports for the source
+            if not D.arr_equal(a, np.array(self.darr.Array(self.path)[:]))[0]:
                 raise Viol('decoder.copy', 'contents', '')
         shutil.rmtree(p2, ignore_errors=True)
         self.probe('copy_checked')
